@@ -154,7 +154,7 @@ def run(ctx):
         for ci in range(ctx.n(25, 300)):
             nn = int(rng.integers(1, 8))
             nl = navis.NeuronList([F.mk_neuron(F.gen_forest(rng, 3, 25, roots=1, lattice=False, zero_edges=False), name='n%d' % j, nid=j + 1) for j in range(nn)])
-            which = str(rng.choice(['apply', 'prune_twigs', 'prune_at_depth', 'omit', 'omit_inplace', 'method']))
+            which = str(rng.choice(['apply', 'prune_twigs', 'prune_at_depth', 'omit', 'omit_inplace', 'method', 'shared_positional']))
             chunk = int(rng.integers(1, nn + 2))
             desc = dict(case=which, n=nn, chunksize=chunk)
             if which == 'apply':
@@ -201,6 +201,16 @@ def run(ctx):
                 exp = [n.id for j, n in enumerate(nl) if j not in badix]
                 ok = nn == 1 or (ser[0] == 'ok' and par[0] == 'ok' and [n.id for n in a_] == exp and [n.id for n in b_nl] == exp)
                 detail = dict(failing_positions=badix, serial=[n.id for n in a_], parallel=[n.id for n in b_nl], expected=exp)
+            elif which == 'shared_positional':
+                # a SHARED (not per-neuron) sequence argument given positionally, whose length happens to equal the number of neurons:
+                # every neuron receives the whole sequence
+                sel = [1, 2, 3, 4, 5, 6, 7][:nn] if rng.random() < 0.7 else [1, 2]
+                ser = guarded(lambda: navis.prune_by_strahler(nl, list(sel), inplace=False))
+                par = guarded(lambda: navis.prune_by_strahler(nl, list(sel), inplace=False, parallel=True, n_cores=2))
+                ind = [guarded(lambda n=n: navis.prune_by_strahler(n, list(sel), inplace=False)) for n in nl]
+                tab = lambda r: [(n.id, sorted(int(i) for i in n.nodes.node_id.values)) for n in (r if hasattr(r, 'neurons') else [r])]
+                ok = ser[0] == 'ok' and par[0] == 'ok' and all(i[0] == 'ok' for i in ind) and tab(ser[1]) == tab(par[1]) == [t for i in ind for t in tab(i[1])]
+                detail = dict(to_prune=sel, serial=str(tab(ser[1]) if ser[0] == 'ok' else ser[1])[:300], individually=str([t for i in ind if i[0] == 'ok' for t in tab(i[1])])[:300])
             elif which == 'method':
                 # NeuronList METHOD calls are dispatched to each neuron's own bound method, serially and in parallel
                 ser = guarded(lambda: nl.prune_by_strahler(1, inplace=False))
